@@ -772,17 +772,17 @@ theorem get_stream_rt (file : Bytes) (m : XMap) (opt : FmtOpt) (n g : Nat) (d : 
     (hat : At file pos.toNat (objHeader n g ++ dictBytes ++ kStream ++ body ++ kEndstream))
     (hg : good (.dict (sdKv0 d)) = true) (hd : depthOf (.dict (sdKv0 d)) ≤ Gen.scanner_maxScannerNestDepth)
     (hnum : n < Gen.fio_maxXRefSize) (hgen : g ≤ Gen.fio_maxGeneration)
-    (hsize : body.length ≤ 9223372036854775807)
-    (inflate : Bytes → Option Bytes) (getInt : Obj → Option Int)
-    (hgi : ∀ i, getInt (.int i) = some i)
-    (hgr : ∀ r len, (r, 0, Obj.int len) ∈ doc → getInt (.ref r 0) = some len) :
+    (hsize : body.length ≤ 9223372036854775807) (hfs : file.length < 9223372036854775808)
+    (inflate : Bytes → Option Bytes) (getInt : Obj → Except Err Int)
+    (hgi : ∀ i, getInt (.int i) = .ok i)
+    (hgr : ∀ r len, (r, 0, Obj.int len) ∈ doc → getInt (.ref r 0) = .ok len) :
     ∃ start, readerGet file m 0 inflate getInt n g
         = .ok (some (.stream (rdKV (sdBefore d) ++ rdKV (sdAfter d)) start body.length)) ∧
       (file.drop start).take body.length = body := by
   obtain ⟨rest, hdrop⟩ := At.drop hat
   obtain ⟨dt, hdt⟩ := fmtDictLen_head hfmt
   -- the value of /Length
-  obtain ⟨lv, hlv, hlvn, hgetInt⟩ : ∃ lv, LenVal value lv ∧ lv ≠ .null ∧ getInt lv = some (body.length : Int) := by
+  obtain ⟨lv, hlv, hlvn, hgetInt⟩ : ∃ lv, LenVal value lv ∧ lv ≠ .null ∧ getInt lv = .ok (body.length : Int) := by
     rcases hlt with ⟨j, hj⟩ | ⟨r, hr1, hr2, hr3⟩
     · refine ⟨.int body.length, ?_, by simp, hgi _⟩
       rw [hj, decOf_eq_natDec]
@@ -795,6 +795,7 @@ theorem get_stream_rt (file : Bytes) (m : XMap) (opt : FmtOpt) (n g : Nat) (d : 
     fun rest' fuel hf => stream_dict_rt opt d value lv hlv hg hd dictBytes off hfmt rest' fuel hf
   have hread := stream_obj_rt n g hnum hgen dictBytes body rest _ lv dt hdt hrd pos.toNat getInt
     (dictGet_len _ _ lv (sdBefore_keys d) hlvn) hgetInt
+    (by have := hat.end_le; simp at this ⊢; omega)
   rw [filter_len _ _ lv (sdBefore_keys d) (sdAfter_keys d hg hd)] at hread
   refine ⟨pos.toNat + (objHeader n g).length + dictBytes.length + 8, ?_, ?_⟩
   · unfold readerGet
@@ -1172,9 +1173,9 @@ theorem file_rt_table (o : WOpts) (s0 s : WState) (ops : List Op)
     (hsize : s.out.length < 10000000000)
     (hgen : ∀ n e, s.xref.get n = some e → e.gen ≤ 65535)
     (hnr : s.nextRef ≤ Gen.fio_maxXRefSize) (htr : TrailerOk tr)
-    (inflate : Bytes → Option Bytes) (getInt : Obj → Option Int)
-    (hgi : ∀ i, getInt (.int i) = some i)
-    (hgr : ∀ r len, (r, 0, Obj.int len) ∈ s.doc → getInt (.ref r 0) = some len) :
+    (inflate : Bytes → Option Bytes) (getInt : Obj → Except Err Int)
+    (hgi : ∀ i, getInt (.int i) = .ok i)
+    (hgr : ∀ r len, (r, 0, Obj.int len) ∈ s.doc → getInt (.ref r 0) = .ok len) :
     ∃ m trd cr ir, openTable s.out = .ok (m, trd) ∧
       nrm (.dict trd) = nrm (.dict (closeTrailer tr cr ir s.nextRef)) ∧
       (∃ n, cr = some n ∧ (n, 0, cat) ∈ s.doc) ∧
@@ -1252,7 +1253,7 @@ theorem file_rt_table (o : WOpts) (s0 s : WState) (ops : List Op)
       simp at this
       omega
     obtain ⟨start, hget, hbody⟩ := get_stream_rt s.out m s.opts.fmt n g d body e.pos dictBytes value off s.doc
-      hmn hpos hfd hlt hat hgood hdep hn hg65 hbl inflate getInt hgi hgr
+      hmn hpos hfd hlt hat hgood hdep hn hg65 hbl (by omega) inflate getInt hgi hgr
     exact ⟨_, start, hget, hbody, stream_dict_nrm d hgood hdep⟩
   · intro n g hfree
     by_cases hlt : n < s.nextRef
@@ -1671,10 +1672,10 @@ example : (match initState { C02fiob.exOpts with version := 4 } with
           | .ok (m, trd) =>
             s.sdoc.length == 1 && s.doc.length == 3 &&
             (match dictGet trd kSize with | some (.int 5) => true | _ => false) &&
-            (match readerGet s.out m 0 (fun _ => none) (fun o => match o with | .int i => some i | _ => none) 2 0 with
+            (match readerGet s.out m 0 (fun _ => none) (fun o => match o with | .int i => .ok i | _ => .error .malformed) 2 0 with
              | .ok (some (.stream [] start 1030)) => (s.out.drop start).take 1030 == List.replicate 1030 65
              | _ => false) &&
-            (match readerGet s.out m 0 (fun _ => none) (fun _ => none) 3 0 with
+            (match readerGet s.out m 0 (fun _ => none) (fun _ => .error .malformed) 3 0 with
              | .ok (some (.plain (.name [65]))) => true | _ => false)
           | _ => false)
       | _ => false)
@@ -1686,10 +1687,10 @@ example : (match initState { C02fiob.exOpts with version := 4, seekable := false
           | .ok (m, _) =>
             s.sdoc.length == 1 && s.doc.length == 4 &&
             (match readerGet s.out m 0 (fun _ => none)
-                (fun o => match o with | .int i => some i | .ref 4 0 => some 1030 | _ => none) 2 0 with
+                (fun o => match o with | .int i => .ok i | .ref 4 0 => .ok 1030 | _ => .error .malformed) 2 0 with
              | .ok (some (.stream [] start 1030)) => (s.out.drop start).take 1030 == List.replicate 1030 65
              | _ => false) &&
-            (match readerGet s.out m 0 (fun _ => none) (fun _ => none) 4 0 with
+            (match readerGet s.out m 0 (fun _ => none) (fun _ => .error .malformed) 4 0 with
              | .ok (some (.plain (.int 1030))) => true | _ => false)
           | _ => false)
       | _ => false)
